@@ -294,7 +294,7 @@ func PrintParse(p *core.Prog, r *core.Report) {
 		}
 		open := format[:i]
 		// the parser: a function in gts that compares state.Buffer() with []byte(open)
-		var found *ast.CallExpr
+		var found ast.Node
 		var body *ast.BlockStmt
 		var fname string
 		for _, d := range p.FuncDecls(core.PkgGts) {
@@ -302,13 +302,27 @@ func PrintParse(p *core.Prog, r *core.Report) {
 				continue
 			}
 			ast.Inspect(d.Body, func(n ast.Node) bool {
-				c, ok := n.(*ast.CallExpr)
-				if !ok || !core.IsCallTo(info, c, "bytes.Equal") || len(c.Args) != 2 {
-					return true
-				}
-				for _, a := range c.Args {
-					if s, ok := p.BytesOfConst(info, a); ok && s == open {
-						found, body, fname = c, d.Body, core.DeclName(d)
+				switch c := n.(type) {
+				case *ast.CallExpr:
+					if !core.IsCallTo(info, c, "bytes.Equal") || len(c.Args) != 2 {
+						return true
+					}
+					for _, a := range c.Args {
+						if s, ok := p.BytesOfConst(info, a); ok && s == open {
+							found, body, fname = c, d.Body, core.DeclName(d)
+						}
+					}
+				case *ast.BinaryExpr:
+					// the same comparison spelled string(buffer) == "join(" / != ...
+					if c.Op != token.EQL && c.Op != token.NEQ {
+						return true
+					}
+					for _, pr := range [][2]ast.Expr{{c.X, c.Y}, {c.Y, c.X}} {
+						if s, ok := core.ConstString(info, pr[0]); ok && s == open {
+							if cv, ok := ast.Unparen(pr[1]).(*ast.CallExpr); ok && core.IsConversion(info, cv) {
+								found, body, fname = c, d.Body, core.DeclName(d)
+							}
+						}
 					}
 				}
 				return true
